@@ -220,9 +220,11 @@ def Landed (l : FLink F) (pkt : List UInt8) (seq : Option Nat) (now : Nat) (fail
   (l.regime.batchSize ≤ q.length ∧ failNext.contains l.core.connId = false ∧ l'.queue = [] ∧
     l'.core.window = l.core.window ∧ l'.core.cong = l.core.cong ∧
     wire = q.map (fun it => (l.core.connId, it.1))) ∨
-  -- threshold reached and the (injected) socket error: batch lost, link torn down for recovery
+  -- threshold reached and the (injected) socket error: batch lost - apart from the prefix `send_all_datagrams`
+  -- got out before the failing call (none for a plain `failNext` injection) -, link torn down for recovery
   (l.regime.batchSize ≤ q.length ∧ failNext.contains l.core.connId = true ∧ l'.queue = [] ∧
-    l'.core.window = 20000 ∧ l'.core.connected = false ∧ l'.core.cong = l.core.cong ∧ wire = [])
+    l'.core.window = 20000 ∧ l'.core.connected = false ∧ l'.core.cong = l.core.cong ∧
+    ∃ k, wire = (q.take k).map (fun it => (l.core.connId, it.1)))
 
 theorem takeBatch_nonempty (l : FLink F) (now : Nat) (h : l.queue.isEmpty = false) :
     (l.takeBatch now).2 = l.queue ∧ (l.takeBatch now).1.queue = [] ∧
@@ -242,7 +244,7 @@ theorem sendConnectionBatch_nonempty (l : FLink F) (now : Nat) (fn : List Nat) (
     ((fn.contains l.core.connId = false ∧ (sendConnectionBatch fa l now fn).2.2.1 = true ∧
         (sendConnectionBatch fa l now fn).2.1 = l.queue.map (fun it => (l.core.connId, it.1))) ∨
      (fn.contains l.core.connId = true ∧ (sendConnectionBatch fa l now fn).2.2.1 = false ∧
-        (sendConnectionBatch fa l now fn).2.1 = [])) := by
+        ∃ k, (sendConnectionBatch fa l now fn).2.1 = (l.queue.take k).map (fun it => (l.core.connId, it.1)))) := by
   have ht := (takeBatch_nonempty l now h).1
   unfold sendConnectionBatch
   generalize l.takeBatch now = r at ht ⊢
@@ -252,7 +254,8 @@ theorem sendConnectionBatch_nonempty (l : FLink F) (now : Nat) (fn : List Nat) (
   rw [if_neg (by simp [h])]
   cases hf : fn.contains l.core.connId
   · simp
-  · simp
+  · simp only [if_true, true_and, Bool.true_eq_false, false_and, false_or]
+    exact ⟨_, rfl⟩
 
 omit [Scalar F] in
 theorem markForRecovery_facts (l : FLink F) :
@@ -303,7 +306,9 @@ theorem forwardVia_cases (s : Sys F) (sel : Nat) (pkt : List UInt8) (seq : Optio
       refine ⟨_, _, _, _, rfl, ?_, fun _ => by rw [if_neg (by simp)]; exact hm.2.2.2.2.1⟩
       right; right
       rw [if_neg (by simp)]
-      exact ⟨hb, by rw [← hc1]; exact hf, hm.1, hm.2.1, hm.2.2.1, by rw [hm.2.2.2.1, tg, hc1], hw⟩
+      obtain ⟨k, hw⟩ := hw
+      exact ⟨hb, by rw [← hc1]; exact hf, hm.1, hm.2.1, hm.2.2.1, by rw [hm.2.2.2.1, tg, hc1],
+        ⟨k, by rw [hw, hq1, hc1]⟩⟩
   · have hn : needs = false := by rw [h2]; simpa using hb
     rw [if_neg (by simp [hn])]
     refine ⟨_, _, _, _, rfl, ?_, fun hs => by rw [hs1, hs]⟩
@@ -1188,7 +1193,7 @@ theorem flushGo_PW (now : Nat) (ls : List (FLink F)) (fn : List Nat) :
   | cons l rest ih =>
     rw [flushGo]
     split
-    · have e := sendConnectionBatch_fst l now fn
+    · have e := sendConnectionBatch_fst (fa := fa) l now fn
       generalize sendConnectionBatch fa l now fn = r at e ⊢
       obtain ⟨l1, wire, ok, fn1⟩ := r
       dsimp only at e ⊢
